@@ -15,6 +15,10 @@ The rewriting is a symbolic evaluation of the integer and pointer variables invo
 `carve` undoes a workspace carved into consecutive pieces (`double *b = a + L;` ...) when the pieces partition one allocation that
 is used for nothing else: every piece becomes its own allocation of the size the carving gave it.
 
+Assumption (stated, not checked): a counted loop runs hi - lo >= 0 times - for a loop whose upper bound is below its lower bound
+the closed forms above would count a negative number of increments where C executes none; the extents of the kernels are grid sizes
+(at least 2).
+
 Whatever is not of these forms (conditional increments, pointers that differ between branches, pointer comparisons other than
 the loop test, `break`) raises Unsupported: the function is then reported as outside the modelled subset, as before.
 
